@@ -569,13 +569,43 @@ def generated_jobs(L, sizes, gran, K, T, keep=None, Lmin=1):
     return out
 
 
-def run_pool_leg(part, prop, jobs, cap=None):
+LEVELS = [{"K": 0, "T": 0}, {"K": 1, "T": 0}, {"K": 1, "T": 1}, {"K": 2, "T": 1}, {"K": 3, "T": 1}, {"K": 3, "T": 2}, {"K": 4, "T": 2}]
+
+
+def curated_h(names, sizes, gran, qsize=0):
+    out = []
+    for n in names:
+        prog, sub = CURATED[n]
+        for size in sizes:
+            q = 1 if "bounded" in n else qsize
+            out.append((spec(size, q, prog, sub, gran), "%s/%d.%d/q%d/%s" % (n, size[0], size[1], q, gran)))
+    return out
+
+
+def generated_h(L, sizes, gran, keep=None, Lmin=1):
+    out = []
+    for prog in generated_programs(L):
+        if len(prog) < Lmin or (keep is not None and not keep(prog)):
+            continue
+        label = ";".join("%s%s" % (o[0][0].upper() if o[0] != "stop" else "X", ("" if len(o) == 1 else str(o[1])[:2])) for o in prog)
+        for size in sizes:
+            out.append((spec(size, 0, prog, None, gran), "gen[%s]/%d.%d/%s" % (label, size[0], size[1], gran)))
+    return out
+
+
+def run_pool_leg(part, prop, harnesses, budget, hard_cap=None):
     from mc import explore
 
-    total = explore.explore_jobs(jobs, cap=cap)
+    seen = set()
+    uniq = []
+    for h in harnesses:
+        if h[1] not in seen:
+            seen.add(h[1])
+            uniq.append(h)
+    total = explore.explore_adaptive(uniq, LEVELS, budget, hard_cap=hard_cap)
     split_viols(total, prop)
     part.merge(total)
-    part.counters["harnesses"] = part.counters.get("harnesses", 0) + len(jobs)
+    part.counters["harnesses"] = part.counters.get("harnesses", 0) + len(uniq)
 
 
 def replay_pool(prop, case):
